@@ -100,12 +100,29 @@ Definition agree_opt_replay (k : rcase) : bool :=
 Fixpoint calls_of (n : call) : list call := match n with Call _ _ _ ks => n :: flat_map calls_of ks end.
 Definition thresholds (c : cfg) (l : list N) : list N :=
   threshold c :: flat_map (fun f => match q_time (trig_of c f) with Some t => [t] | None => [] end) l.
-Definition rr_class (k : rcase) : bool :=
-  let c := rr_cfg k in
-  let l := flat_map fns_of (rr_forest k) in
+(* a time= trigger never lowers the threshold in force (else a hidden, long enough descendant keeps a
+   short ancestor at replay time only) *)
+Fixpoint mono_thr (c : cfg) (thr : N) (n : call) : bool :=
+  match n with
+  | Call f _ _ ks =>
+      let th := match q_time (trig_of c f) with Some t => t | None => thr end in
+      (thr <=? th)%N && forallb (mono_thr c th) ks
+  end.
+Fixpoint height (n : call) : nat := match n with Call _ _ _ ks => S (fold_right Nat.max 0%nat (map height ks)) end.
+Definition rr_class_of (c : cfg) (f : list call) : bool :=
+  let l := flat_map fns_of f in
   forallb (fun n => negb (dur n =? 0)%N && forallb (fun t => negb (dur n =? t)%N) (thresholds c l))
-          (flat_map calls_of (rr_forest k))
-  && forallb (fun f => match q_depth (trig_of c f) with None => true | Some _ => false end
-                       && negb (q_trace_on (trig_of c f)) && negb (q_trace_off (trig_of c f))) l.
+          (flat_map calls_of f)
+  && forallb (fun k => match q_depth (trig_of c k) with None => true | Some _ => false end
+                       && negb (q_trace_on (trig_of c k)) && negb (q_trace_off (trig_of c k))) l
+  && forallb (mono_thr c (threshold c)) f
+  (* -C, `trace` and time= act on calls that -F/-N/-D hide at replay time but not at record time:
+     only compared when no call is hidden by -F/-N/-D *)
+  && (negb (caller_filter c || existsb (fun k => q_trace (trig_of c k)) l
+            || existsb (fun k => match q_time (trig_of c k) with Some _ => true | None => false end) l)
+      || (forallb (fun k => match q_filter (trig_of c k) with None => true | Some _ => false end) l
+          && forallb (fun n => Z.of_nat (height n) <=? gdepth c) f))
+  && (1 <=? gdepth c).
+Definition rr_class (k : rcase) : bool := rr_class_of (rr_cfg k) (rr_forest k).
 Definition ok_rr (k : rcase) : bool :=
   negb (rr_class k) || list_eqb nd_eqb (rr_rec_replay k) (rr_opt_replay k).
